@@ -5,7 +5,7 @@ set_option linter.unusedSimpArgs false
 set_option linter.unusedVariables false
 namespace TornadoModel.C22
 open TornadoModel.C21 (Str xhtmlEscape splitOnC)
-open TornadoModel.C21.Spec (escapeSafe startsWith)
+open TornadoModel.C21.Spec (escapeSafe startsWith entityBodies)
 open TornadoModel.C22.Spec
 
 /-! ### list slicing -/
@@ -174,5 +174,130 @@ theorem stripGo_renderLink (l : Link) (r : Str) (hh : ∀ c ∈ l.href, c ≠ 62
     · exact hh c hc
     · omega
     · exact hp c hc
+
+/-! ### entities are never split -/
+
+theorem escapeSafe_tail (x : Nat) (s : Str) (h : escapeSafe (x :: s) = true) : escapeSafe s = true := by
+  simp only [escapeSafe, Bool.and_eq_true] at h; exact h.2
+
+theorem escapeSafe_drop_append (a b : Str) (h : escapeSafe (a ++ b) = true) : escapeSafe b = true := by
+  induction a with
+  | nil => exact h
+  | cons x a ih => exact ih (escapeSafe_tail x _ h)
+
+theorem escapeSafe_cons_ne (x : Nat) (s : Str) (hx : x ≠ 38) :
+    escapeSafe (x :: s) = ((x != 60 && x != 62 && x != 34 && x != 39) && escapeSafe s) := by
+  have : (x != 38) = true := by simpa using hx
+  simp [escapeSafe, this]
+
+theorem escapeSafe_amp (s : Str) (h : escapeSafe (38 :: s) = true) :
+    ∃ e, e ∈ entityBodies ∧ ∃ s', s = e ++ s' ∧ escapeSafe s' = true := by
+  have ht := escapeSafe_tail _ _ h
+  simp only [escapeSafe, Bool.and_eq_true, Bool.or_eq_true, List.any_eq_true] at h
+  obtain ⟨⟨_, h2⟩, _⟩ := h
+  rcases h2 with h2 | ⟨e, he, hst⟩
+  · simp at h2
+  · obtain ⟨s', hs'⟩ := (startsWith_iff e s).mp hst
+    exact ⟨e, he, s', hs'.symm, escapeSafe_drop_append e s' (by rw [hs']; exact ht)⟩
+
+theorem escapeSafe_entity (e : Str) (he : e ∈ entityBodies) (y : Str) (hy : escapeSafe y = true) :
+    escapeSafe (38 :: e ++ y) = true := by
+  simp only [entityBodies, List.mem_cons, List.mem_nil_iff, or_false] at he
+  rcases he with rfl | rfl | rfl | rfl | rfl
+  · exact C21.escapeSafe_escC 38 y hy
+  · exact C21.escapeSafe_escC 60 y hy
+  · exact C21.escapeSafe_escC 62 y hy
+  · exact C21.escapeSafe_escC 34 y hy
+  · exact C21.escapeSafe_escC 39 y hy
+
+theorem rfind_append (c : Nat) (a b : Str) :
+    rfind c (a ++ b) = match rfind c b with
+      | some i => some (a.length + i)
+      | none => rfind c a := by
+  induction a with
+  | nil => simp only [List.nil_append, List.length_nil, Nat.zero_add]; cases rfind c b <;> simp [rfind]
+  | cons x a ih =>
+    simp only [List.cons_append, rfind, ih]
+    cases h : rfind c b with
+    | some i => simp; omega
+    | none => simp
+
+theorem dropCutEntity_cons_ne (x : Nat) (c : Str) (hx : x ≠ 38) : dropCutEntity (x :: c) = x :: dropCutEntity c := by
+  unfold dropCutEntity
+  simp only [rfind]
+  cases h : rfind 38 c with
+  | some i => simp only [List.drop_succ_cons, List.take_succ_cons]; split <;> rfl
+  | none => simp [hx]
+
+/-- a cut inside the entity at the very end: everything from its `&` is dropped; a complete entity stays -/
+theorem dropCutEntity_partial : ∀ e ∈ entityBodies, ∀ k, k ≤ 6 →
+    escapeSafe (dropCutEntity (38 :: e.take k)) = true := by decide
+
+theorem entityBodies_facts : ∀ e ∈ entityBodies, rfind 38 (38 :: e) = some 0 ∧ (38 :: e).contains 59 = true ∧ e.length ≤ 6 := by
+  decide
+
+theorem dropCutEntity_entity (e : Str) (he : e ∈ entityBodies) (c : Str) :
+    dropCutEntity (38 :: e ++ c) = 38 :: e ++ dropCutEntity c := by
+  obtain ⟨hr, hc59, _⟩ := entityBodies_facts e he
+  have happ : 38 :: e ++ c = (38 :: e) ++ c := rfl
+  unfold dropCutEntity
+  rw [happ, rfind_append]
+  cases h : rfind 38 c with
+  | some i =>
+    have hd : ((38 :: e) ++ c).drop ((38 :: e).length + i) = c.drop i := by
+      rw [List.drop_append, List.drop_of_length_le (by omega), Nat.add_sub_cancel_left]; rfl
+    have htk : ((38 :: e) ++ c).take ((38 :: e).length + i) = (38 :: e) ++ c.take i := by
+      rw [List.take_append, List.take_of_length_le (by omega), Nat.add_sub_cancel_left]
+    simp only [hd, htk]
+    split <;> rfl
+  | none =>
+    have h59 : 59 ∈ (38 :: e) ++ c := List.mem_append_left c (by simpa using hc59)
+    have hcont : (((38 :: e) ++ c).drop 0).contains 59 = true := by simpa using h59
+    simp only [hr]
+    rw [if_neg (by rw [hcont]; simp)]
+
+/-- cutting escaped text anywhere and then applying the `rfind("&")` repair leaves whole entities only -/
+theorem escapeSafe_dropCutEntity_aux : ∀ (n : Nat) (s : Str), s.length ≤ n → escapeSafe s = true →
+    ∀ c, c <+: s → escapeSafe (dropCutEntity c) = true := by
+  intro n
+  induction n with
+  | zero =>
+    intro s hn _ c hc
+    have : s = [] := List.eq_nil_of_length_eq_zero (by omega)
+    subst this
+    have : c = [] := List.prefix_nil.mp hc
+    subst this; rfl
+  | succ n ih =>
+    intro s hn hs c hc
+    cases c with
+    | nil => rfl
+    | cons y c' =>
+      cases s with
+      | nil => simp at hc
+      | cons x s' =>
+        rw [List.cons_prefix_cons] at hc
+        obtain ⟨rfl, hc'⟩ := hc
+        simp only [List.length_cons] at hn
+        by_cases hx : y = 38
+        · subst hx
+          obtain ⟨e, he, s'', rfl, hs''⟩ := escapeSafe_amp s' hs
+          obtain ⟨_, _, hlen⟩ := entityBodies_facts e he
+          rcases List.prefix_or_prefix_of_prefix hc' (List.prefix_append e s'') with h1 | h1
+          · have : c' = e.take c'.length := List.prefix_iff_eq_take.mp h1
+            rw [this]
+            exact dropCutEntity_partial e he _ (by have := h1.length_le; omega)
+          · obtain ⟨c'', rfl⟩ := h1
+            have hc'' : c'' <+: s'' := (List.prefix_append_right_inj e).mp hc'
+            rw [← List.cons_append, dropCutEntity_entity e he]
+            exact escapeSafe_entity e he _ (ih s'' (by simp at hn; omega) hs'' c'' hc'')
+        · rw [dropCutEntity_cons_ne y c' hx, escapeSafe_cons_ne _ _ hx]
+          rw [escapeSafe_cons_ne _ _ hx] at hs
+          simp only [Bool.and_eq_true] at hs ⊢
+          exact ⟨hs.1, ih s' (by omega) hs.2 c' hc'⟩
+
+theorem escapeSafe_dropCutEntity (s c : Str) (hs : escapeSafe s = true) (hc : c <+: s) :
+    escapeSafe (dropCutEntity c) = true :=
+  escapeSafe_dropCutEntity_aux s.length s (Nat.le_refl _) hs c hc
+
 
 end TornadoModel.C22
